@@ -161,6 +161,8 @@ def dec(x, W=None):
         if "$w2d" in x:
             name, r0, r1, c0, c1 = x["$w2d"]
             return W["lw"][name].wells[r0:r1, c0:c1]
+        if "$wells" in x:
+            return W["lw"][x["$wells"]].wells  # the labware's own well-ID array (the object itself, not a copy)
         if "$hex" in x:
             return float.fromhex(x["$hex"])
         if "$tip" in x:
@@ -200,6 +202,9 @@ def ref_wells(x, config):
         rows = range(g.idrows)[r0:r1]
         cols = range(g.cols)[c0:c1]
         return [[well_id(r, c) for c in cols] for r in rows]
+    if isinstance(x, dict) and "$wells" in x:
+        g = geo_of(next(s for s in config["labware"] if s["name"] == x["$wells"]))
+        return [[well_id(r, c) for c in range(g.cols)] for r in range(g.idrows)]
     if isinstance(x, dict) and "$a" in x:
         return ref_wells(x["$a"], config)
     if isinstance(x, dict) and "$af" in x:
